@@ -97,6 +97,46 @@ def run(ctx):
                 elif (ra2.exc is None) != (rb2.exc is None):
                     ctx.violation(f"run:exception-mismatch:-i:{name}:{''.join(sub)}", f"{meta} -i {lst}: edited file -> {ra2.exc!r}; -c -> {rb2.exc!r}",
                                   {"pdb": text, "chains": list(sub), "optargs": ["-i", lst]})
+    # one invocation, several structures (propka3 -c X first.pdb -f second.pdb): the selection holds for each of them
+    import os
+    import propka.run as prun
+    from .. import tlc
+    st = dict(structures(ctx))
+    pairs = [("A+B+blank-lig", "A,B,C-no-TER", ("B",)), ("A+B+blank-lig", "A,B,C-no-TER", ("A", "C")),
+             ("A,B,C-no-TER", "chains-A+a", ("a", "A")), ("chains-A+a", "blank+B+lig", (" ",))]
+    for n1, n2, sub in pairs:
+        wd = tlc.workdir("c13main")
+        cwd = os.getcwd()
+        got = {}
+        exc = None
+        try:
+            os.chdir(wd)
+            for fn, n in (("first.pdb", n1), ("second.pdb", n2)):
+                open(fn, "w").write(st[n])
+            with runner.quiet():
+                try:
+                    # (main hands its argument on as loadOptions(*optargs): the argument list goes in as one element)
+                    prun.main([["-q"] + [x for ch in sub for x in ("-c", ch)] + ["first.pdb", "-f", "second.pdb"]])
+                except BaseException as ex:  # noqa
+                    exc = ex
+            for fn in ("first.pka", "second.pka"):
+                got[fn] = open(fn).read() if os.path.exists(fn) else None
+        finally:
+            os.chdir(cwd)
+        ctx.count()
+        for fn, n in (("first", n1), ("second", n2)):
+            ref = runner.run(chain_filter(st[n], set(sub)), ["-q"], name=fn + ".pdb")
+            if ref.exc is not None:
+                continue          # (a selection that leaves nothing: what the single run does is the reference)
+            ctx.nontriv(("main", n1, n2, sub, fn))
+            if got.get(fn + ".pka") != ref.pka_text:
+                a_, b_ = (got.get(fn + ".pka") or "").splitlines(), (ref.pka_text or "").splitlines()
+                k = next((i for i, (x, y) in enumerate(zip(a_, b_)) if x != y), min(len(a_), len(b_)))
+                ctx.violation(f"chains:several-files:{fn}:{n1}|{n2}:{''.join(sub)}",
+                              f"propka.run.main -c {list(sub)} {n1} -f {n2}: {fn}.pka differs from the run on the edited file"
+                              f" (exception {exc!r}); first difference at line {k + 1}: "
+                              f"{a_[k] if k < len(a_) else None!r} vs {b_[k] if k < len(b_) else None!r}",
+                              {"pdb": st[n], "first": st[n1], "second": st[n2], "chains": list(sub)})
     viol = relations.validate(ctx, rels, ["SameConfs", "Part", "TextSame"], "chain selection vs edited file")
     for inv, lst in sorted(viol.items()):
         for rel in lst:
